@@ -343,6 +343,125 @@ theorem mismatchSgm_generated_eq (m : DMap) (r c : Nat) (hr : r < m.rows) (hc : 
     · simp [hmis, embedDisp, embedFlag]
   all_goals window_bound
 
+/-! ## `interpolate_occlusion_mc_cnn` -/
+
+theorem wrap_nonneg {n i : Int} (h : 0 ≤ i) : wrap n i = i := by
+  have : ¬ i < 0 := by omega
+  simp [wrap, this]
+
+/-- `(valid[r, a:b] & INVALID) == 0` on the `Int` reading of the mask is the list of `DMap.valid` over columns `a … b-1`,
+    whatever the text of the index and of the two bounds (their values are what matters) -/
+theorem rowMask_eq (m : DMap) (r a b : Nat) (i lo hi : Int) (hr : r < m.rows)
+    (ei : i = (r : Int)) (elo : lo = (a : Int)) (ehi : hi = (b : Int)) (hab : a ≤ b) (hb : b ≤ m.cols) :
+    rowMaskZero (embedFlag m) m.rows m.cols i lo hi 963 = (List.range' a (b - a)).map fun j => m.valid r j := by
+  subst ei elo ehi
+  simp only [rowMaskZero, rowSlice, clipIdx_natCast (show a ≤ m.cols by omega), clipIdx_natCast hb, List.map_map,
+    wrap_nonneg (Int.natCast_nonneg r)]
+  apply List.map_congr_left
+  intro j _
+  have := valid_test m ((r : Int), (j : Int))
+  simpa [DMap.validAt] using this
+
+theorem rowNonneg_embedFlag (m : DMap) (n0 n1 i lo hi : Int) : rowNonneg (embedFlag m) n0 n1 i lo hi = true := by
+  simp [rowNonneg, rowSlice, embedFlag_nonneg]
+
+theorem argmaxBool_lt (l : List Bool) (h : 0 < l.length) : argmaxBool l < l.length := by
+  unfold argmaxBool
+  simp only
+  split
+  · assumption
+  · exact h
+
+theorem vget_natCast {α : Type} (d : α) (v : List α) (k : Nat) : vget d v (k : Int) = v.getD k d := by
+  simp [vget, wrap_nonneg (Int.natCast_nonneg k)]
+
+theorem vinb_natCast {α : Type} (v : List α) (k : Nat) (h : k < v.length) : vinb v (k : Int) = true := by
+  simp only [vinb]
+  exact inb_of (Int.natCast_nonneg k) (by exact_mod_cast h)
+
+theorem range'_map_shift {β : Type} (c n : Nat) (f : Nat → β) :
+    (List.range' c n).map f = (List.range n).map fun k => f (c + k) := by
+  rw [List.range'_eq_map_range, List.map_map]
+  rfl
+
+/-- `out_val -= OCC * found; out_val |= FILLED_OCC * found` on a word carrying the occlusion bit -/
+theorem flag_update (f : Nat) (b : Bool) (hle : 256 ≤ f) :
+    bor ((f : Int) - 256 * b2i b) (16 * b2i b) = ((raise .or (f - 256 * b2n b) (16 * b2n b) : Nat) : Int)
+    ∧ 0 ≤ (f : Int) - 256 * b2i b ∧ (0 : Int) ≤ 16 * b2i b := by
+  cases b with
+  | true =>
+    have := sub_bor f 256 16 hle
+    simp only [b2i, b2n, if_true, Int.mul_one, Nat.mul_one, raise]
+    refine ⟨by simpa using this, by omega, by omega⟩
+  | false =>
+    simp [b2i, b2n, raise, bor]
+
+/-- **One pixel of `interpolate_occlusion_mc_cnn`, as the source defines it today, is the hand model's `occlMcPixel`**:
+    the mask of the row up to the pixel, reversed, its `argmax`, the second mask to the right when nothing is found,
+    `msk[arg_valid]`, the flag update multiplied by it and the disparity copied from `row ∓ arg_valid` — every read
+    inside the arrays, no `argmax` of an empty mask. -/
+theorem occlusionMcCnn_generated_eq (m : DMap) (r c : Nat) (hr : r < m.rows) (hc : c < m.cols) :
+    occlusionMcCnnPx (embedDisp m) m.rows m.cols (embedFlag m) m.rows m.cols r c
+      = .ok ((occlMcPixel ⟨true, .or⟩ m r c).1, (((occlMcPixel ⟨true, .or⟩ m r c).2 : Nat) : Int)) := by
+  have hr0 : (0 : Int) ≤ r := Int.natCast_nonneg r
+  have hc0 : (0 : Int) ≤ c := Int.natCast_nonneg c
+  have hrR : (r : Int) < m.rows := by exact_mod_cast hr
+  have hcC : (c : Int) < m.cols := by exact_mod_cast hc
+  have h256 : (256 : Int) = ((256 : Nat) : Int) := rfl
+  have hb : embedFlag m (r : Int) (c : Int) = ((m.flag r c : Nat) : Int) := by simp [embedFlag]
+  have hL := rowMask_eq m r 0 (c + 1) (r : Int) 0 ((c : Int) + 1) hr rfl rfl (by push_cast; rfl) (by omega) (by omega)
+  have hR := rowMask_eq m r c m.cols (r : Int) (c : Int) (m.cols : Int) hr rfl rfl rfl (by omega) (by omega)
+  rw [Nat.sub_zero, ← List.range_eq_range'] at hL
+  rw [range'_map_shift] at hR
+  simp only [occlusionMcCnnPx, get2_of (embedFlag m) _ _ hr0 hc0, get2_of (embedDisp m) _ _ hr0 hc0,
+    inb2_of hr0 hrR hc0 hcC, inb_of hr0 hrR, embedFlag_nonneg, decide_true, Bool.and_true, Bool.true_and,
+    rowNonneg_embedFlag, hL, hR]
+  have hft := flag_test m r c 256
+  rw [show ((256 : Nat) : Int) = 256 from rfl] at hft
+  rw [hft]
+  have hoc : occlusion = 256 := rfl
+  have hfo : filledOcclusion = 16 := rfl
+  unfold occlMcPixel occlMcCore
+  simp only [hoc, hfo]
+  by_cases hocc : ((m.flag r c &&& 256) != 0) = true
+  · have hle : 256 ≤ m.flag r c := le_of_and_two_pow (k := 8) hocc
+    generalize hLdef : ((List.range (c + 1)).map fun j => m.valid r j).reverse = L
+    generalize hRdef : ((List.range (m.cols - c)).map fun k => m.valid r (c + k)) = R
+    have hLlen : L.length = c + 1 := by rw [← hLdef]; simp
+    have hRlen : R.length = m.cols - c := by rw [← hRdef]; simp
+    have haL := argmaxBool_lt L (by omega)
+    have haR := argmaxBool_lt R (by omega)
+    have hLne : L.isEmpty = false := by cases L with | nil => simp at hLlen | cons _ _ => rfl
+    have hRne : R.isEmpty = false := by cases R with | nil => simp at hRlen; omega | cons _ _ => rfl
+    simp only [hocc, if_true, PyInterp.argmax, hLne, hRne, Bool.not_false, Bool.and_true, vget_natCast,
+      vinb_natCast L _ haL, vinb_natCast R _ haR, hb]
+    by_cases ha0 : argmaxBool L = 0
+    · have hd : (((argmaxBool L : Nat) : Int) = 0) := by exact_mod_cast ha0
+      generalize R.getD (argmaxBool R) false = found
+      obtain ⟨f1, f2, f3⟩ := flag_update (m.flag r c) found hle
+      have hin : inb2 (m.rows : Int) (m.cols : Int) (r : Int) ((c : Int) + ((argmaxBool R : Nat) : Int)) = true :=
+        inb2_of hr0 hrR (by omega) (by omega)
+      have hget : get2 (embedDisp m) (m.rows : Int) (m.cols : Int) (r : Int) ((c : Int) + ((argmaxBool R : Nat) : Int))
+          = m.disp r (c + argmaxBool R) := by
+        rw [get2_of _ _ _ hr0 (by omega)]
+        simp only [embedDisp, Int.toNat_natCast]
+        congr 1
+      simp only [hd, ha0, Nat.cast_zero, f1, f2, f3, hin, hget, decide_true, if_true, Bool.and_true, Bool.and_self, beq_self_eq_true]
+    · have hd : ¬ (((argmaxBool L : Nat) : Int) = 0) := by exact_mod_cast ha0
+      generalize L.getD (argmaxBool L) false = found
+      obtain ⟨f1, f2, f3⟩ := flag_update (m.flag r c) found hle
+      have hin : inb2 (m.rows : Int) (m.cols : Int) (r : Int) ((c : Int) - ((argmaxBool L : Nat) : Int)) = true :=
+        inb2_of hr0 hrR (by omega) (by omega)
+      have hget : get2 (embedDisp m) (m.rows : Int) (m.cols : Int) (r : Int) ((c : Int) - ((argmaxBool L : Nat) : Int))
+          = m.disp r (c - argmaxBool L) := by
+        rw [get2_of _ _ _ hr0 (by omega)]
+        simp only [embedDisp, Int.toNat_natCast]
+        congr 1
+        omega
+      have hbeq : (argmaxBool L == 0) = false := by simp [ha0]
+      simp only [hd, hbeq, f1, f2, f3, hin, hget, decide_true, decide_false, Bool.false_eq_true, if_false, if_true, Bool.and_true, Bool.and_self]
+  · simp [hocc, embedDisp, embedFlag]
+
 /-! ## Non-vacuity -/
 
 def exMap : DMap :=
@@ -366,5 +485,9 @@ def exMap2 : DMap :=
 example : mismatchSgmPx (embedDisp exMap2) 1 5 (embedFlag exMap2) 1 5 0 1 = .ok (.nan, 256) := by decide +kernel
 example : mismatchSgmPx (embedDisp exMap2) 1 5 (embedFlag exMap2) 1 5 0 3 = .ok (.num 5, 32) := by decide +kernel
 example : mismSgmPixel ⟨true, .or⟩ exMap2 0 3 = (.num 5, 32) := by decide +kernel
+
+-- occlusion at column 0 of `exMap2` (nothing valid on the left: filled from the right), and a row without valid pixel
+example : occlusionMcCnnPx (embedDisp exMap2) 1 5 (embedFlag exMap2) 1 5 0 0 = .ok (.num 4, 16) := by decide +kernel
+example : occlMcPixel ⟨true, .or⟩ exMap2 0 0 = (.num 4, 16) := by decide +kernel
 
 end Pandora.C14Kernels
